@@ -353,6 +353,10 @@ class Module:
             self.tree = ast.parse(source, filename=relpath)
         except SyntaxError as e:
             raise AnalysisError(f"{relpath}: does not parse: {e}") from e
+        if not os.environ.get("SA_NO_ALPHA"):
+            from . import alpha
+
+            self.renamed_back = alpha.normalise(self.tree, relpath)
         self.defs: dict[str, ast.AST] = {}
         self.imports: dict[str, str] = {}
         self._index(self.tree, "", None)
